@@ -75,6 +75,7 @@ err_t beltSDEEncr(void* dest, const void* src, size_t count,
 	const octet key[], size_t len, const octet iv[16])
 {
 	void* state;
+	octet* iv2;
 	// проверить входные данные
 	if (count % 16 != 0 || count < 32 ||
 		len != 16 && len != 24 && len != 32 ||
@@ -84,13 +85,15 @@ err_t beltSDEEncr(void* dest, const void* src, size_t count,
 		!memIsValid(dest, count))
 		return ERR_BAD_INPUT;
 	// создать состояние
-	state = blobCreate(beltSDE_keep());
+	state = blobCreate(beltSDE_keep() + 16);
 	if (state == 0)
 		return ERR_OUTOFMEMORY;
+	iv2 = (octet*)state + beltSDE_keep();
 	// зашифровать
 	beltSDEStart(state, key, len);
+	memCopy(iv2, iv, 16);
 	memMove(dest, src, count);
-	beltSDEStepE(dest, count, iv, state);
+	beltSDEStepE(dest, count, iv2, state);
 	// завершить
 	blobClose(state);
 	return ERR_OK;
@@ -100,6 +103,7 @@ err_t beltSDEDecr(void* dest, const void* src, size_t count,
 	const octet key[], size_t len, const octet iv[16])
 {
 	void* state;
+	octet* iv2;
 	// проверить входные данные
 	if (count % 16 != 0 || count < 32 ||
 		len != 16 && len != 24 && len != 32 ||
@@ -109,13 +113,15 @@ err_t beltSDEDecr(void* dest, const void* src, size_t count,
 		!memIsValid(dest, count))
 		return ERR_BAD_INPUT;
 	// создать состояние
-	state = blobCreate(beltSDE_keep());
+	state = blobCreate(beltSDE_keep() + 16);
 	if (state == 0)
 		return ERR_OUTOFMEMORY;
+	iv2 = (octet*)state + beltSDE_keep();
 	// расшифровать
 	beltSDEStart(state, key, len);
+	memCopy(iv2, iv, 16);
 	memMove(dest, src, count);
-	beltSDEStepD(dest, count, iv, state);
+	beltSDEStepD(dest, count, iv2, state);
 	// завершить
 	blobClose(state);
 	return ERR_OK;
